@@ -1022,6 +1022,278 @@ def run (offsetDonor : Bool) : Op → M Out
       | .inr j => setItem (s.sys i).atoms ix (s.sys j).atoms : M Unit)
     pure .unit
 
+/-! ## the decisions of the source as functions
+
+  Everything below is option handling / branch selection of `Atoms.py` and `System.py`, written as total functions
+  over what the branch conditions look at.  `lean/Atomman/Generated/AtomsSource.lean` is regenerated from the CURRENT
+  source (module `ast`) on every check and `Proofs/C06_Source.lean` proves every generated definition equal to the one
+  here (`gen_…_eq_model`), and the functions of the model above equal to their factorisation through these decisions. -/
+
+/-- (parameter, default) of a signature, `self` and `**kwargs` left out; defaults as `ast.unparse` prints them. -/
+abbrev Sig := List (String × String)
+
+/-- `Atoms.__init__`: the names a per-atom property cannot be created under through the constructor. -/
+def sigAtomsInit : Sig :=
+  [("natoms", "None"), ("atype", "None"), ("pos", "None"), ("prop", "None"), ("model", "None"), ("safecopy", "False")]
+def sigProp : Sig := [("key", "None"), ("index", "None"), ("value", "None"), ("a_id", "None")]
+def sigPropAtype : Sig := [("key", ""), ("value", ""), ("atype", "None")]
+def sigExtend : Sig := [("value", "")]
+def sigAtomsProp : Sig := [("key", "None"), ("index", "None"), ("value", "None"), ("a_id", "None"), ("scale", "False")]
+def sigAtomsDf : Sig := [("scale", "False")]
+def sigAtomsExtend : Sig := [("value", ""), ("scale", "False"), ("symbols", "None"), ("safecopy", "False")]
+def sigSystemInit : Sig :=
+  [("atoms", "None"), ("box", "None"), ("pbc", "None"), ("scale", "False"), ("symbols", "None"), ("masses", "None"),
+   ("model", "None"), ("safecopy", "False")]
+
+/-- the two keys `Atoms.__init__` / `__deepcopy__` / `__getitem__` treat apart. -/
+def reservedKeys : List String := ["atype", "pos"]
+
+/-- default `atype` / `pos` of `Atoms.__init__`: shape and the one value. -/
+def defaultAtypeShape : List Nat := [1]
+def defaultAtypeValue : Int := 1
+def defaultPosShape : List Nat := [1, 3]
+
+/-- `PropertyDict.__setitem__`, "Broadcast if needed and allowed". -/
+inductive BcastDecision where
+  | scalar    -- np.array(np.broadcast_to(value, (natoms,) + value.shape))
+  | row       -- np.array(np.broadcast_to(value, (natoms,) + value.shape[1:]))
+  | refuse    -- ValueError('First dimension of value must be 1 or natoms')
+  | keep      -- the array itself
+deriving Repr, DecidableEq
+
+def bcastDecision (shape : List Nat) (n : Nat) : BcastDecision :=
+  match shape with
+  | [] => .scalar
+  | d :: _ => if d = 1 then .row else if d ≠ n then .refuse else .keep
+
+/-- the three `atype >= 1` guards: (`key == 'atype'`, number of entries looked at, `np.min(value) < 1`). -/
+def guardRefuses (isAtype : Prop) (len : Nat) (minLt1 : Prop) : Prop := isAtype ∧ len > 0 ∧ minLt1
+
+/-- existing key: write through `self[key][:] = value`; new key: bind the array. -/
+inductive StoreDecision where
+  | writeThrough | bindNew
+deriving Repr, DecidableEq
+
+def storeDecision (has : Bool) : StoreDecision := if has then .writeThrough else .bindNew
+
+/-- `Atoms.__init__`, the three count blocks (shape of `atype` / `pos` if given; `natoms` if given). -/
+def countAtype (atype : Option (List Nat)) : Except Err Int :=
+  match atype with
+  | none => .ok 1
+  | some [] => .ok 1
+  | some [n] => .ok n
+  | some _ => .error .value
+
+def countPos (pos : Option (List Nat)) : Except Err Int :=
+  match pos with
+  | none => .ok 1
+  | some [d] => if d = 3 then .ok 1 else .error .value
+  | some [n, d] => if d = 3 then .ok n else .error .value
+  | some _ => .error .value
+
+def countNatoms (natoms : Option Int) (na np : Int) : Except Err Int :=
+  match natoms with
+  | some k => if (na = 1 ∨ na = k) ∧ (np = 1 ∨ np = k) then .ok k else .error .value
+  | none => if na = np then .ok na else if na = 1 then .ok np else if np = 1 then .ok na else .error .value
+
+/-- what a caller hands over as `value`: an array-like literal or an `Atoms` object. -/
+inductive CallVal where
+  | lit (v : Val)
+  | atoms (o : Nat)
+deriving Repr, DecidableEq
+
+def CallVal.isAtoms : CallVal → Bool
+  | .atoms _ => true
+  | .lit _ => false
+
+/-- how a flag documented as `bool` is spelled: a Python `bool`, or something else with a truth value
+    (`1`, `0`, `numpy.True_`, `1.0` …): `isinstance(scale, bool)`, `scale is True` and `if scale:` tell them apart. -/
+inductive Flag where
+  | bool (b : Bool)
+  | other (truthy : Bool)
+deriving Repr, DecidableEq
+
+def Flag.isBool : Flag → Bool
+  | .bool _ => true
+  | .other _ => false
+
+def Flag.truthy : Flag → Bool
+  | .bool b => b
+  | .other t => t
+
+/-- what a call of `Atoms.prop(key, index, value, a_id)` does. -/
+inductive PropAction where
+  | refuse (e : Err)
+  | keys                                                   -- list(self.view.keys())
+  | copyAtoms (index : Option Index)                       -- deepcopy(self[index])
+  | copyColumn (key : Option String) (index : Option Index)   -- deepcopy(self.view[key]) / deepcopy(self.view[key][index])
+  | setAtoms (index : Option Index) (value : Option CallVal)  -- self[:] = value / self[index] = value
+  | setColumn (key : Option String) (value : Option CallVal)  -- self.view[key] = deepcopy(value)
+  | writeIndexed (key : Option String) (index : Option Index) (value : Option CallVal)  -- guard; self.view[key][index] = value
+deriving Repr, DecidableEq
+
+def propDispatch (key : Option String) (index : Option Index) (value : Option CallVal) (a_id : Option Index) :
+    PropAction :=
+  if a_id.isSome ∧ index.isSome then .refuse .value else
+  let index := if a_id.isSome then a_id else index
+  match value, key, index with
+  | none, none, none => .keys
+  | none, none, some ix => .copyAtoms (some ix)
+  | none, some k, ix => .copyColumn (some k) ix
+  | some v, none, ix => if v.isAtoms then .setAtoms ix (some v) else .refuse .type
+  | some v, some k, none => .setColumn (some k) (some v)
+  | some v, some k, some ix => .writeIndexed (some k) (some ix) (some v)
+
+/-- what a call of `System.atoms_prop(key, index, value, a_id, scale)` does. -/
+inductive AtomsPropAction where
+  | refuse (e : Err)
+  | delegate                                               -- self.atoms.prop(key=key, index=index[, value=value], a_id=a_id)
+  | scaledAtoms (index : Option Index)                     -- deepcopy(self.atoms[index]) with pos made box-relative
+  | scaledColumn (key : Option String) (index : Option Index)
+  | scaledSetAtoms (index : Option Index) (value : Option CallVal)
+  | scaledSetColumn (key : Option String) (index : Option Index) (value : Option CallVal)
+deriving Repr, DecidableEq
+
+def atomsPropDispatch (key : Option String) (index : Option Index) (value : Option CallVal) (a_id : Option Index)
+    (scale : Flag) : AtomsPropAction :=
+  match scale with
+  | .other _ => .refuse .type
+  | .bool false => .delegate
+  | .bool true =>
+    if a_id.isSome ∧ index.isSome then .refuse .value else
+    let index := if a_id.isSome then a_id else index
+    match value, key with
+    | none, none => .scaledAtoms index
+    | none, some k => .scaledColumn (some k) index
+    | some v, none => if v.isAtoms then .scaledSetAtoms index (some v) else .refuse .type
+    | some v, some k => .scaledSetColumn (some k) index (some v)
+
+/-- `prop_atype(key, value)` (no `atype`): the table is long enough. -/
+def patypeTableOk (len nt : Nat) : Prop := len ≥ nt
+
+/-- what kind of thing `extend` / `atoms_extend` is handed. -/
+inductive ArgKind where
+  | int | atoms | other
+deriving Repr, DecidableEq
+
+inductive ExtDonor where
+  | fresh      -- Atoms(natoms=value)
+  | given      -- value
+deriving Repr, DecidableEq
+
+inductive ExtAction where
+  | refuse (e : Err)
+  | extend (donor : ExtDonor)
+deriving Repr, DecidableEq
+
+def extendDispatch (kind : ArgKind) : ExtAction :=
+  match kind with
+  | .int => .extend .fresh
+  | .atoms => .extend .given
+  | .other => .refuse .type
+
+/-- `System.natypes` from `len(self.symbols)` and `self.__atoms.natypes`. -/
+def sysNatypesOf (nsymbols ant : Nat) : Nat := if nsymbols > ant then nsymbols else ant
+
+/-- the getters' "Fill in missing values" tests. -/
+def symbolsGetPads (stored ant : Nat) : Prop := stored < ant
+def symbolsSetPads (len ant : Nat) : Prop := len < ant
+def massesGetPads (stored snt : Nat) : Prop := stored < snt
+
+inductive MassesDecision where
+  | pad | refuse | keep
+deriving Repr, DecidableEq
+
+def massesSetDecision (len snt : Nat) : MassesDecision :=
+  if len < snt then .pad else if len > snt then .refuse else .keep
+
+/-- `pbc` setter: the shape the assertion asks for. -/
+def pbcShape : List Nat := [3]
+
+/-- `atoms_extend`: the refusal `scale is True and not isinstance(value, Atoms)`, the later test `if scale:`,
+    and where the scaled positions go (`atoms.pos[self.natoms:]`: `false` = not at the donor's length). -/
+def atomsExtendRefuses (scale : Flag) (kind : ArgKind) : Prop := scale = .bool true ∧ kind ≠ .atoms
+def atomsExtendConverts (scale : Flag) : Prop := scale.truthy = true
+def atomsExtendOffsetDonor : Bool := false
+
+/-- `System.__init__`: `isinstance(scale, bool)` else TypeError; conversion `if scale is True`; copy `elif safecopy`. -/
+def systemInitRefuses (scale : Flag) : Prop := scale.isBool = false
+def systemInitConverts (scale : Flag) : Prop := scale = .bool true
+/-- the order in which `System.__init__` assigns through the setters. -/
+def systemInitOrder : List String := ["pbc", "symbols", "masses"]
+
+/-! ## the call layer: one Python call with its options → the operation it performs -/
+
+/-- the arguments of `prop` / `atoms_prop` as the caller gives them (`none` = not given / `None`). -/
+structure PropArgs where
+  key : Option String := none
+  index : Option Index := none
+  value : Option CallVal := none
+  a_id : Option Index := none
+deriving Repr, DecidableEq
+
+/-- `atoms.prop(**args)` on object `o`: the operation of the grammar it is, or the refusal of the option handling.
+    (`format`: not a call of the grammar - a property value that is an `Atoms` object.) -/
+def propCall (o : Nat) (a : PropArgs) : Except Err Op :=
+  match propDispatch a.key a.index a.value a.a_id with
+  | .refuse e => .error e
+  | .keys => .ok (.propKeys o)
+  | .copyAtoms (some ix) => .ok (.propGetAtoms o ix)
+  | .copyColumn (some k) ix => .ok (.propGet o k ix)
+  | .setAtoms ix (some (.atoms src)) => .ok (.propSetAtoms o ix src)
+  | .setColumn (some k) (some (.lit v)) => .ok (.propSet o k none v)
+  | .writeIndexed (some k) (some ix) (some (.lit v)) => .ok (.propSet o k (some ix) v)
+  | _ => .error .format
+
+/-- `system.atoms_prop(**args, scale=…)` on system `i` (whose atoms are object `o`). -/
+def atomsPropCall (i o : Nat) (a : PropArgs) (scale : Flag) : Except Err Op :=
+  match atomsPropDispatch a.key a.index a.value a.a_id scale with
+  | .refuse e => .error e
+  | .delegate =>
+    (match propCall o a with
+     | .ok (.propGet _ k ix) => .ok (.sysPropGet i k ix)
+     | .ok (.propGetAtoms _ ix) => .ok (.sysPropGetAtoms i ix)
+     | .ok (.propSet _ k ix v) => .ok (.sysPropSet i k ix v false)
+     | .ok (.propSetAtoms _ ix src) => .ok (.sysPropSetAtoms i ix src false)
+     | r => r)
+  | .scaledAtoms ix => .ok (.sysPropGetAtomsScaled i ix)
+  | .scaledColumn (some k) ix => .ok (.sysPropGetScaled i k ix)
+  | .scaledSetAtoms ix (some (.atoms src)) => .ok (.sysPropSetAtoms i ix src true)
+  | .scaledSetColumn (some k) ix (some (.lit v)) => .ok (.sysPropSet i k ix v true)
+  | _ => .error .format
+
+/-- `System(atoms=o, box=…, pbc=…, scale=…, symbols=…, masses=…, safecopy=…)` with the flags as spelled. -/
+def systemCall (o : Nat) (box : Box Rat) (pbc : List Bool) (symbols : Option (List (Option String)))
+    (masses : Option (List (Option Rat))) (scale safecopy : Flag) : Except Err Op :=
+  match scale with
+  | .other _ => .error .type
+  | .bool sc => .ok (.mkSysX o box pbc symbols masses sc safecopy.truthy)
+
+/-- `system.atoms_extend(value, scale=…, symbols=…)`: an int / an `Atoms` object.  (`format`: a truthy non-bool
+    `scale` with a count - the code fails on `value.pos` with an AttributeError, not a call of the grammar.) -/
+def atomsExtendCall (i : Nat) (value : Int ⊕ Nat) (scale : Flag) (symbols : Option (List (Option String))) :
+    Except Err Op :=
+  match value, scale with
+  | .inl _, .bool true => .error .value
+  | .inl _, .other true => .error .format
+  | v, sc => .ok (.sysExtend i v sc.truthy symbols)
+
+/-- a call of the API with its options. -/
+inductive Call where
+  | prop (o : Nat) (a : PropArgs)
+  | atomsProp (i : Nat) (a : PropArgs) (scale : Flag)
+  | system (o : Nat) (box : Box Rat) (pbc : List Bool) (symbols : Option (List (Option String)))
+      (masses : Option (List (Option Rat))) (scale safecopy : Flag)
+  | atomsExtend (i : Nat) (value : Int ⊕ Nat) (scale : Flag) (symbols : Option (List (Option String)))
+  | raw (op : Op)
+
+def Call.toOp (s : State) : Call → Except Err Op
+  | .prop o a => propCall o a
+  | .atomsProp i a sc => atomsPropCall i (s.sys i).atoms a sc
+  | .system o box pbc sy ms sc cp => systemCall o box pbc sy ms sc cp
+  | .atomsExtend i v sc sy => atomsExtendCall i v sc sy
+  | .raw op => .ok op
+
 /-- one step of a history.  Malformed literals / dangling ids are `format` errors (the harness never
     sends them); an `unmodelled` outcome leaves the state untouched. -/
 def stepWith (offsetDonor : Bool) (s : State) (op : Op) : Except Err Out × State :=
@@ -1035,6 +1307,15 @@ def step (s : State) (op : Op) : State := (stepWith false s op).2
 def output (s : State) (op : Op) : Except Err Out := (stepWith false s op).1
 
 def init : State := {}
+
+/-- one call: a refusal of the option handling changes nothing; otherwise the operation is stepped. -/
+def callWith (offsetDonor : Bool) (s : State) (c : Call) : Except Err Out × State :=
+  match c.toOp s with
+  | .error e => (.error e, s)
+  | .ok op => stepWith offsetDonor s op
+
+def callStep (s : State) (c : Call) : State := (callWith false s c).2
+def callOutput (s : State) (c : Call) : Except Err Out := (callWith false s c).1
 
 
 end Atomman.C06
